@@ -687,3 +687,50 @@ def _alpha(stmts) -> list:
         rec(s_)
     sg = Sigma(raw_subst=mapping)
     return [sg.apply(s_) for s_ in stmts]
+
+
+@rule("C01", "R8.cell-occupancy", "TOLERANCE/GUARD",
+      "a cell of the Hanan grid is marked occupied exactly when its centre lies in a blockage, specialised or fixed region "
+      "(robust against round-off); coordinates are never looked up exactly (bisect / index / ==) in the tolerance-merged "
+      "boundary lists", floor=2)
+def r8(ctx: Ctx) -> None:
+    f = ctx.func(DIE, "Die._calculate_cell_matrix")
+    c = canon_function(f, ctx.model)
+    s_ = ("self",)
+    src = (to_poly(("a", s_, "blockages")) + to_poly(("a", s_, "fixed_regions")) + to_poly(("a", s_, "specialized_regions"))).to_s()
+    marks = atoms_of(c, lambda x: x[0] == "set" and len(x) == 3 and x[1][0] == "s" and x[1][1][0] == "s" and x[1][1][1] == ("a", s_, "_cells") and x[2] == ("k", "bool", True))
+    loops = atoms_of(c, lambda x: x[0] == "for" and len(x) == 5 and x[2] == src)
+    ctx.site(f.where, "cell marked occupied iff its centre is inside a region of any of the three input lists", marks=len(marks), region_loops=len(loops))
+    ok = False
+    for lp in loops:
+        r = lp[1]
+        for st in lp[3]:
+            if st[0] == "if" and st[1][0] == "c" and st[1][1] == ("a", r, "point_inside") and len(st[1][2]) == 1 and st[1][2][0][0] == "c" \
+                    and st[1][2][0][1] == ("a", s_, "_cell_center") and len(st[2]) == 1 and st[2][0] in marks and st[3] == ():
+                i, j = st[1][2][0][2]
+                if st[2][0][1] == ("s", ("s", ("a", s_, "_cells"), j), i):
+                    ok = True
+    if not ok or len(marks) != 1:
+        ctx.report(f.where, "cell-occupancy", "the occupancy matrix is not filled by 'region.point_inside(cell centre)' over blockages + specialised + fixed regions: "
+                   "any exact comparison against the merged boundary lists misplaces regions whose sides differ by round-off (0.15 + 0.15 vs 0.4 - 0.1)", lineno=f.node.lineno)
+    n = 0
+    for g in ctx.model.all_functions():
+        if g.module.relpath != DIE:
+            continue
+        n += 1
+        for x in walk_own(g.node):
+            bad = None
+            if isinstance(x, ast.Call):
+                nm = call_name(x)
+                if nm.startswith("bisect") or nm in ("index", "searchsorted"):
+                    args = [ast.unparse(a) for a in x.args] + ([ast.unparse(x.func.value)] if isinstance(x.func, ast.Attribute) else [])
+                    if any(a in ("self._x", "self._y") for a in args):
+                        bad = x
+            if isinstance(x, ast.Compare) and any(isinstance(o, (ast.Eq, ast.NotEq, ast.In, ast.NotIn)) for o in x.ops):
+                txt = ast.unparse(x)
+                if "self._x" in txt or "self._y" in txt:
+                    bad = x
+            if bad is not None:
+                ctx.report(g.where, f"exact-grid-lookup {ast.unparse(bad)[:80]}", f"{g.qualname} looks a coordinate up exactly in the tolerance-merged boundary lists: "
+                           "a side that differs from the kept representative by round-off lands one grid line off", lineno=bad.lineno)
+    ctx.site(DIE, "no exact lookup (bisect/index/==/in) of coordinates in _x / _y", functions=n)
